@@ -207,6 +207,10 @@ fn documents() -> Vec<(&'static str, String)> {
 	]
 }
 
+pub fn documents_for_c19() -> Vec<String> {
+	documents().into_iter().map(|d| d.1).collect()
+}
+
 fn narrowed_ok(key: &str, src: Option<&Value>, got: Option<&Value>) -> Result<(), String> {
 	match (key, src, got) {
 		(_, None, _) => Ok(()), // the reader may add coverage-derived values
